@@ -17,8 +17,10 @@ def mc_consts(**kw):
 
 def mc(ctx, cfg, consts, timeout=3000, expect=None, workers=6, count=True, heap="12g"):
     """expect=None: must pass; expect=<set of names>: must be violated by one of them"""
-    if os.environ.get("VERIF_DEST_SKIP_MC") == "1":     # development aid (mutant trials on the Go side only)
-        ctx.note("model checking skipped (VERIF_DEST_SKIP_MC=1)")
+    # development aid (trials of code changes on the Go side only): honoured only when VERIF_REPO points to a scratch
+    # tree -- a run on /repo writes the real evidence and always includes the model-checking stage
+    if os.environ.get("VERIF_DEST_SKIP_MC") == "1" and os.path.realpath(os.environ.get("VERIF_REPO", "/repo")) != os.path.realpath("/repo"):
+        ctx.note("model checking skipped (VERIF_DEST_SKIP_MC=1, scratch tree)")
         return dict(violated=None, ok=True)
     r = ctx.tlc("Destination", cfg, consts=consts, timeout=timeout, workers=workers, heap=heap,
                 expect_ok=(expect is None), count=count)
@@ -181,6 +183,8 @@ def c06_scenarios(ctx):
     # stall-resume: accepts, reads normally, stops reading for many flush periods (connection stays open; conn.In, io
     # buffer and kernel buffers fill, the writer is blocked), then resumes and reads to the end.  Never closes.
     for (cb, iob, fl) in sizes:
+        if iob <= 8:
+            continue        # one syscall per byte: filling the socket buffers takes minutes
         sid += 1
         # the relay's socket send buffer autotunes up to tcp_wmem[2] (4 MB) while the endpoint reads: the lines handed
         # during the stall must exceed that plus io buffer plus conn.In (1000-byte lines; 3/4 of `lines` is the fill budget)
